@@ -21,8 +21,22 @@ def install(R):
             return
         k = sum(1 for e in fr.st.events if e.kind == "fs" and e.name != "query")
         sf = fr.sub(spec=True)
-        for name, f in eng.eval_clauses(c.crash, sf):
-            eng.emit(sf, f"{name}.after_step{k}_{what}", f, kind="crash", line=getattr(node, "lineno", None))
+        # as in postconditions, parameter names denote the values the caller passed
+        st = fr.st
+        saved = st.env
+        try:
+            _, fnode = eng.repo.lookup(c.key)
+            a_ = fnode.args
+            names = [x.arg for x in a_.posonlyargs + a_.args + a_.kwonlyargs]
+            if fr.old is not None and fr.fn_key.split("@")[0] == c.key.split("@")[0]:
+                st.env = dict(saved)
+                for n_ in names:
+                    if n_ in fr.old.env and n_ not in c.out_params:
+                        st.env[n_] = fr.old.env[n_]
+            for name, f in eng.eval_clauses(c.crash, sf):
+                eng.emit(sf, f"{name}.after_step{k}_{what}", f, kind="crash", line=getattr(node, "lineno", None))
+        finally:
+            st.env = saved
 
     R.symbols["crash_check"] = crash_check
 
